@@ -50,6 +50,10 @@ type Cmd struct {
 	Conc   bool                       `json:"concurrent"`
 	SetID  string                     `json:"setId"`
 	Desc   map[string]interface{}     `json:"desc"`
+	Sub    string                     `json:"sub"`
+	Dim    string                     `json:"dim"`
+	Outer  string                     `json:"outer"`
+	LawID  string                     `json:"lawId"`
 }
 
 // SetQuery is one member of a set of queries run one after the other or all
@@ -444,6 +448,59 @@ func (r *runner) exec(c *Cmd) error {
 		}
 		if err != nil {
 			line["err"] = err.Error()
+		}
+		ctl.Emit(line)
+	case "InLaw":
+		// dim IN (subquery) against dim IN (literal list of the distinct values
+		// the subquery returns)
+		// c.SQL is the sub-query as a query of its own (c.Sub selects the dimension,
+		// which is only meaningful nested)
+		sub, err := r.node.RawQuery(c.SQL, c.Mem, stepTimeout)
+		line := map[string]interface{}{"a": "Other", "law": "in", "lawId": c.LawID, "sub": c.Sub, "outer": c.Outer, "mem": c.Mem}
+		if err != nil {
+			line["err"] = "sub: " + err.Error()
+			ctl.Emit(line)
+			return nil
+		}
+		seen := map[string]bool{}
+		var lits []string
+		for _, row := range sub {
+			v, ok := row.Dims[c.Dim]
+			if !ok || v == nil {
+				continue
+			}
+			var lit string
+			switch x := v.(type) {
+			case string:
+				lit = "'" + x + "'"
+			default:
+				lit = fmt.Sprint(x)
+			}
+			if !seen[lit] {
+				seen[lit] = true
+				lits = append(lits, lit)
+			}
+		}
+		line["values"] = lits
+		if len(lits) == 0 {
+			line["err"] = "subquery returned no values"
+			ctl.Emit(line)
+			return nil
+		}
+		nested, err1 := r.node.RawQuery(fmt.Sprintf(c.Outer, "("+c.Sub+")"), c.Mem, stepTimeout)
+		literal, err2 := r.node.RawQuery(fmt.Sprintf(c.Outer, "("+strings.Join(lits, ", ")+")"), c.Mem, stepTimeout)
+		line["nested"], line["literal"] = nested, literal
+		if nested == nil {
+			line["nested"] = []zv.RawRow{}
+		}
+		if literal == nil {
+			line["literal"] = []zv.RawRow{}
+		}
+		if err1 != nil {
+			line["errNested"] = err1.Error()
+		}
+		if err2 != nil {
+			line["errLiteral"] = err2.Error()
 		}
 		ctl.Emit(line)
 	case "RunSQL":
